@@ -1,3 +1,187 @@
-(* C06 placeholder: statements follow *)
+(* C06 — Uplink NAS protection is correct over any message history.
+   Statements only; proofs in Proofs/CountProofs.v, Proofs/NasSecProofs.v.
+   Model: Model/Count.v (security.Count), Model/NasSec.v (tglib.NASEncode via EncodeNasPduWithSecurity).
+   Specification: Spec/RefNasPeer.v (reference sender [protect], reference receiver [ul_receive], histories).
+   [enc] / [mac] stand for security.NASEncrypt / security.NASMacCalculate (Model/Security.v: nas_encrypt, nas_mac);
+   every theorem holds for ANY two functions, the receiver theorems under two hypotheses C07 discharges:
+     mac_len4  the MAC has 4 octets                   (C07: c07_nas_mac_is_spec + eia1 / eia2 return 4 octets)
+     enc_inv   deciphering inverts ciphering           (C07: c07_cipher_involutive, okp p := |p| < 536870909)
+   and C07 (c07_nas_encrypt_is_spec, c07_nas_mac_is_spec) identifies nas_encrypt / nas_mac with 128-NEAx / 128-NIAx. *)
 From Coq Require Import NArith List Bool.
-Require Import Bytes Count NasSec RefNasPeer NasSecInst.
+Require Import Bytes Count NasSec RefNasPeer Security NasSecInst CountProofs NasSecProofs.
+Import ListNotations.
+Open Scope N_scope.
+
+Definition alg := N -> list N -> N -> N -> N -> list N -> option (list N).
+
+(* ---- (a) the counter type, all values at once: masks of counter.go as arithmetic *)
+(* SetSQN on every uint32 field value (the mask 0xffffff00 and the OR) *)
+Theorem c06_setsqn_mask :
+  forall c s, c < 4294967296 -> s < 256 -> N.lor (N.land c 0xffffff00) s = (c / 256) * 256 + s.
+Proof. exact lor_land_ffffff00. Qed.
+Print Assumptions c06_setsqn_mask.
+
+Theorem c06_counter_operations :
+  forall c, c < 4294967296 ->
+    cnt_mask c = c mod 16777216 /\ cnt_sqn c = c mod 256 /\ cnt_overflow c = (c / 256) mod 65536 /\
+    cnt_addone c = ((c + 1) mod 4294967296) mod 16777216 /\
+    (forall s, cnt_setsqn c s = (c / 256) * 256 + s mod 256) /\
+    (forall o, cnt_setoverflow c o = (c / 16777216) * 16777216 + (o mod 65536) * 256 + c mod 256).
+Proof.
+  intros c H. exact (conj (cnt_mask_mod c) (conj (cnt_sqn_mod c) (conj (cnt_overflow_arith c) (conj (cnt_addone_arith c)
+         (conj (fun s => cnt_setsqn_arith c s H) (fun o => cnt_setoverflow_arith c o H)))))).
+Qed.
+Print Assumptions c06_counter_operations.
+
+(* the 24-bit NAS COUNT: COUNT = overflow || SQN; +1 carries from the sequence number into the overflow counter
+   and wraps at 2^24 — for every one of the 2^24 values *)
+Theorem c06_count_24bit :
+  forall c, c < 16777216 ->
+    c = cnt_overflow c * 256 + cnt_sqn c /\
+    cnt_addone c = (c + 1) mod 16777216 /\
+    cnt_sqn (cnt_addone c) = (cnt_sqn c + 1) mod 256 /\
+    cnt_overflow (cnt_addone c) = (if cnt_sqn c =? 255 then (cnt_overflow c + 1) mod 65536 else cnt_overflow c) /\
+    cnt_get c = (c, c) /\ cnt_set c 0 0 = 0.
+Proof.
+  intros c H. exact (conj (cnt_split c H) (conj (cnt_addone_24 c H) (conj (cnt_addone_sqn c H)
+         (conj (cnt_addone_overflow c H) (conj (cnt_get_id c H) (cnt_set_0 c H)))))).
+Qed.
+Print Assumptions c06_count_24bit.
+
+(* ---- (b) one message: NASEncode = the reference sender with COUNT = ULCount (0 after a new-context reset),
+   DIRECTION = uplink, BEARER = 1; ULCount + 1 afterwards; an algorithm error leaves the counter unincremented *)
+Theorem c06_message_is_protect :
+  forall (enc mac:alg) st plain hdr newctx, wf st ->
+    nas_encode enc mac st plain hdr true newctx Epd5GSMobilityManagementMessage =
+    let c := ul_count_for (ul st) newctx in
+    let d := if newctx then 0 else dl st in
+    match protect enc mac (ctx_of st) UPLINK c hdr plain with
+    | Some pkt => (mk_ue (ul_next c) d (ea st) (ia st) (kenc st) (kint st), Ok pkt)
+    | None => (mk_ue c d (ea st) (ia st) (kenc st) (kint st), Err)
+    end.
+Proof. exact nas_encode_is_protect. Qed.
+Print Assumptions c06_message_is_protect.
+
+(* layout of what the reference sender emits: EPD | hdr | MAC(4) | SQN = COUNT mod 256 | message part, the MAC computed
+   over SQN || message part as sent, the message part ciphered exactly under header types 2 and 4 *)
+Theorem c06_protected_layout :
+  forall (enc mac:alg) ctx dir c hdr plain pkt,
+    (forall m t, mac (c_ia ctx) (c_kint ctx) c 1 dir m = Some t -> length t = 4%nat) ->
+    protect enc mac ctx dir c hdr plain = Some pkt ->
+    exists m body,
+      pkt = EPD_5GMM :: hdr :: m ++ c mod 256 :: body /\ length m = 4%nat /\
+      nth_error pkt 6 = Some (c mod 256) /\
+      mac (c_ia ctx) (c_kint ctx) c BEARER_3GPP dir (c mod 256 :: body) = Some m /\
+      (if hdr_ciphered hdr then enc (c_ea ctx) (c_kenc ctx) c BEARER_3GPP dir plain = Some body else body = plain).
+Proof. exact protect_layout. Qed.
+Print Assumptions c06_protected_layout.
+
+(* ---- (c) ALL histories: every output, and both counters after every message, are the reference sender's *)
+Theorem c06_history_is_reference_sender :
+  forall (enc mac:alg) (ops:ul_ops) st,
+    wf st -> Forall hdr_ok ops ->
+    all_some (fst (ul_history enc mac (ctx_of st) (ul st) ops)) ->
+    hrun enc mac st (map send_of ops) = ul_expected enc mac (ctx_of st) (ul st) (dl st) ops.
+Proof. exact ul_history_is_reference_sender. Qed.
+Print Assumptions c06_history_is_reference_sender.
+
+(* which COUNT the messages of a history carry *)
+Theorem c06_history_counts :
+  forall (enc mac:alg) ctx (ops:ul_ops) next,
+    fst (ul_history enc mac ctx next ops) =
+    map (fun x => protect enc mac ctx UPLINK (snd x) (snd (fst (fst x))) (fst (fst (fst x))))
+        (combine ops (ul_counts next (map (fun o => snd o) ops))).
+Proof. exact ul_history_counts. Qed.
+Print Assumptions c06_history_counts.
+
+(* the i-th message since the last new-context message (itself message 1) carries COUNT i-1 mod 2^24;
+   without a reset, message i carries start + i - 1 mod 2^24 (across 255->256, 65535->65536 and 2^24-1->0) *)
+Theorem c06_counts_since_reset :
+  forall (pre rest:list bool) next,
+    Forall (fun b => b = false) rest ->
+    ul_counts next (pre ++ true :: rest) =
+    ul_counts next pre ++ map (fun i => N.of_nat i mod 16777216) (seq 0 (S (length rest))).
+Proof. exact ul_counts_since_reset. Qed.
+Print Assumptions c06_counts_since_reset.
+
+Theorem c06_counts_without_reset :
+  forall (news:list bool) next,
+    next < 16777216 -> Forall (fun b => b = false) news ->
+    ul_counts next news = map (fun i => (next + N.of_nat i) mod 16777216) (seq 0 (length news)).
+Proof. exact ul_counts_run. Qed.
+Print Assumptions c06_counts_without_reset.
+
+(* the final state as fold_left of the step function: ULCount = the COUNT the sender uses next, DLCount reset iff a
+   new context was taken, keys and algorithms untouched *)
+Theorem c06_history_final_state :
+  forall (enc mac:alg) (ops:ul_ops) st,
+    wf st -> Forall hdr_ok ops ->
+    all_some (fst (ul_history enc mac (ctx_of st) (ul st) ops)) ->
+    let fin := fold_left (fun s o => fst (hstep enc mac s o)) (map send_of ops) st in
+    ul fin = snd (ul_history enc mac (ctx_of st) (ul st) ops) /\
+    dl fin = (if any_newctx ops then 0 else dl st) /\ wf fin /\ ctx_of fin = ctx_of st.
+Proof. exact ul_history_final_count. Qed.
+Print Assumptions c06_history_final_state.
+
+(* ---- (d) a conformant receiver holding the same keys accepts every message of the history, in order, returns
+   exactly the submitted plain octets and ends with the sender's COUNT *)
+Theorem c06_receiver_recovers_history :
+  forall (enc mac:alg) ctx (okp:list N -> Prop),
+    (forall c d m t, mac (c_ia ctx) (c_kint ctx) c 1 d m = Some t -> length t = 4%nat) ->
+    (forall c d p q, okp p -> enc (c_ea ctx) (c_kenc ctx) c 1 d p = Some q -> enc (c_ea ctx) (c_kenc ctx) c 1 d q = Some p) ->
+    forall (ops:ul_ops) next,
+      next < 16777216 -> Forall hdr_ok ops -> Forall (plain_ok_op okp) ops ->
+      all_some (fst (ul_history enc mac ctx next ops)) ->
+      ul_receive_history enc mac ctx next
+        (combine (map unsome (fst (ul_history enc mac ctx next ops))) (map (fun o => snd o) ops))
+      = (ul_accepts next ops, snd (ul_history enc mac ctx next ops)).
+Proof. exact ul_history_received. Qed.
+Print Assumptions c06_receiver_recovers_history.
+
+(* ---- (e) a new context resets both counters; without a security context the octets go out unchanged *)
+Theorem c06_new_context_resets :
+  forall (enc mac:alg) st plain hdr, wf st ->
+    let r := nas_encode enc mac st plain hdr true true Epd5GSMobilityManagementMessage in
+    snd r = res_of (protect enc mac (ctx_of st) UPLINK 0 hdr plain) /\
+    dl (fst r) = 0 /\
+    ul (fst r) = match protect enc mac (ctx_of st) UPLINK 0 hdr plain with Some _ => 1 | None => 0 end.
+Proof. exact nas_encode_new_context. Qed.
+Print Assumptions c06_new_context_resets.
+
+Theorem c06_no_context_unchanged :
+  forall (enc mac:alg) st plain hdr newctx epd, nas_encode enc mac st plain hdr false newctx epd = (st, Ok plain).
+Proof. exact nas_encode_no_context. Qed.
+Print Assumptions c06_no_context_unchanged.
+
+(* ---- non-vacuity *)
+(* the two hypotheses on the algorithms are met by functions that depend on all their inputs *)
+Example c06_hypotheses_satisfiable :
+  (forall a k c b d m t, toy_mac a k c b d m = Some t -> length t = 4%nat) /\
+  (forall a k c b d p q, toy_enc a k c b d p = Some q -> toy_enc a k c b d q = Some p).
+Proof. exact (conj toy_mac_len4 toy_enc_inv). Qed.
+
+(* the real algorithms on a history crossing 2^24-1 -> 0 with a reset in the middle: the hypotheses of
+   c06_history_is_reference_sender hold and both sides are the computed octets; the reference receiver with the
+   3GPP algorithms (Spec/TS33401B.v) accepts them and returns the plain messages *)
+Definition c06_k1 : bytes := [0;1;2;3;4;5;6;7;8;9;10;11;12;13;14;15].
+Definition c06_k2 : bytes := [16;17;18;19;20;21;22;23;24;25;26;27;28;29;30;31].
+Definition c06_ops : ul_ops :=
+  [([0x7e;0;0x43], 2, false); ([0x7e;0;0x64;0x6f], 1, false); ([0x7e;0;0x55], 4, true); ([0x7e;0;0x43], 3, false)].
+Definition c06_st0 : ue_state := mk_ue 16777215 77 2 2 c06_k1 c06_k2.
+Example c06_history_instance :
+  wf c06_st0 /\ Forall hdr_ok c06_ops /\
+  all_some (fst (ul_history nas_encrypt nas_mac (ctx_of c06_st0) (ul c06_st0) c06_ops)) /\
+  map (fun x => snd (fst x)) (hrun_x c06_st0 (map send_of c06_ops)) = [0; 1; 1; 2] /\
+  map (fun x => snd x) (hrun_x c06_st0 (map send_of c06_ops)) = [77; 77; 0; 0].
+Proof.
+  split; [split; vm_compute; reflexivity|].
+  split; [repeat constructor; vm_compute; discriminate|].
+  split; [vm_compute; repeat constructor; discriminate|].
+  split; vm_compute; reflexivity.
+Qed.
+Example c06_receiver_instance :
+  fst (ul_receive_history nea_s nia_s (ctx_of c06_st0) 16777215
+        (combine (map (fun x => match fst (fst x) with Ok b => b | _ => [] end) (hrun_x c06_st0 (map send_of c06_ops)))
+                 (map (fun o => snd o) c06_ops)))
+  = [Accept [0x7e;0;0x43] 0; Accept [0x7e;0;0x64;0x6f] 1; Accept [0x7e;0;0x55] 1; Accept [0x7e;0;0x43] 2].
+Proof. vm_compute. reflexivity. Qed.
